@@ -216,9 +216,65 @@ def _add_names(font):
     name.setName("Mac family", 1, 1, 0, 0)
 
 
+# ---- class-based (format 2) chaining contexts, acting on the SECOND input glyph --------------------
+FEA_CTX2 = LANGSYS + """
+@A=[a b g h]; @B=[c d i j]; @C=[e f k l];
+lookup L1 { sub c by c.alt; sub d by d.alt; } L1;
+lookup L2 { sub e by e.alt; sub f by f.alt; } L2;
+lookup L3 { sub a by a.alt; } L3;
+feature calt {
+  # @C never starts a rule: its glyphs are not in the subtable's Coverage, yet L2 acts on them
+  sub @A' @B' lookup L1 @C;
+  sub @B' @C' lookup L2 @A;
+  sub @A' @A' lookup L3 @A;
+  sub @B' @B' lookup L1 @B;
+  sub @A' @C' lookup L2 @B;
+  sub @B' @A' lookup L3 @C;
+  sub @A' @C' lookup L2 @C;
+  sub @B' @C' lookup L2 @C;
+} calt;
+lookup P1 { pos c <0 0 20 0>; pos d <0 0 25 0>; } P1;
+lookup P2 { pos e <5 0 -10 0>; pos f <0 0 7 0>; } P2;
+lookup P3 { pos a <0 0 -9 0>; } P3;
+feature kern {
+  pos @A' @B' lookup P1 @C;
+  pos @B' @C' lookup P2 @A;
+  pos @C' @A' lookup P3 @B;
+  pos @A' @A' lookup P3 @A;
+  pos @B' @B' lookup P1 @B;
+  pos @C' @C' lookup P2 @C;
+  pos @A' @C' lookup P2 @B;
+  pos @B' @A' lookup P3 @C;
+} kern;
+"""
+CTX2_GLYPHS = list("abcdefghijkl") + ["c.alt", "d.alt", "e.alt", "f.alt", "a.alt"]
+
+
+def _build_ctx2():
+    """feaLib writes whichever contextual format compiles smallest; here the class-based format 2 is
+    wanted, so the size comparison is biased towards it while this one font is built."""
+    from fontTools.otlLib import builder as B
+
+    orig = B.ChainContextualBuilder.getCompiledSize_
+
+    def prefer_format2(self, subtables):
+        size = orig(self, subtables)
+        return 0 if getattr(subtables[0], "Format", None) == 2 else size
+
+    B.ChainContextualBuilder.getCompiledSize_ = prefer_format2
+    try:
+        font = tinyfont.build({"kind": "ttf", "shapes": "mixed", "glyphs": CTX2_GLYPHS, "cmap": {0x61 + i: ch for i, ch in enumerate("abcdef")}, "fea": FEA_CTX2})
+    finally:
+        B.ChainContextualBuilder.getCompiledSize_ = orig
+    kinds = lookup_kinds(font)
+    assert "S6.2" in kinds and "P8.2" in kinds, kinds
+    return tinyfont.to_bytes(font)
+
+
 def generated_fonts():
     """-> {key: sfnt bytes} deterministic."""
     out = {}
+    out["tiny:ctx2-ttf"] = _build_ctx2()
     for key, spec in sorted(_specs().items()):
         font = tinyfont.build(spec)
         if key == "vf-mark-1axis":
